@@ -67,6 +67,9 @@ type C06Srv struct {
 // C06Srvs are started once per process, outside any bubble.
 var C06Srvs []*C06Srv
 
+// C06RandomPorts: a fixed port was busy, placement on the ring is not reproducible.
+var C06RandomPorts bool
+
 // C06Stat is a process-wide Stat (its statLoop must live outside bubbles).
 var C06Stat *Stat
 
@@ -81,10 +84,24 @@ func init() {
 		os.Setenv("VERIF_KNOWN", "/verif/.work/C06-known.txt")
 	}
 	C06Stat = NewStat("c06")
+	// The position of a node on the cluster's hash ring is a function of its
+	// address, so the ports are a function of the shard: a replay (shard 0)
+	// of a case found by thorough shard i places keys as the original run did
+	// when started with VERIF_C06_SHARD=i. Busy port: fall back to a free one.
+	shard := 0
+	sh := os.Getenv("VERIF_C06_SHARD")
+	if sh == "" {
+		sh = os.Getenv("VERIF_SHARD")
+	}
+	fmt.Sscanf(sh, "%d", &shard)
 	for i := 0; i < 3; i++ {
 		m := miniredis.NewMiniRedis()
-		if err := m.Start(); err != nil {
-			panic(err)
+		if err := m.StartAddr(fmt.Sprintf("127.0.0.1:%d", 23600+4*(shard%64)+i)); err != nil {
+			m = miniredis.NewMiniRedis()
+			if err := m.Start(); err != nil {
+				panic(err)
+			}
+			C06RandomPorts = true
 		}
 		s := &C06Srv{M: m}
 		m.Server().SetPreHook(s.hook)
@@ -382,15 +399,16 @@ func c06CleanInterp(t *testing.T, c c06CleanCase) (v kit.Verdict) {
 			} else {
 				classes[fmt.Sprintf("succeeds-at-attempt-%d", len(want))] = true
 			}
+			if strings.Join(gs, " ") != str(inv) {
+				matchInv = false
+			}
 			if g != str(want) {
 				if fail == "" {
 					fail = fmt.Sprintf("task %d %+v: delete attempts at [%s] after the wheel start, want [%s] (1 s after the failed delete, then 5 s, 1 min, 5 min, 1 h while the previous attempt failed; none after the first success)", i, task, strings.Join(gs, " "), str(want))
 				}
-				if strings.Join(gs, " ") != str(inv) {
-					matchInv = false
-				}
 			}
 		}
+		// known finding only when EVERY task behaved exactly as the defect hypothesis predicts
 		if fail != "" && matchInv {
 			known = C06KnownInverted
 		}
